@@ -45,6 +45,7 @@ ASSUMPTIONS = [
 ]
 REQUIRED = ["op_get_subtree", "op_node_subtree", "op_to_subtree", "op_cut_enter", "op_cut_leave",
             "op_cut_type", "op_cut_order", "op_cut_tip", "op_neurites", "op_dendrites",
+            "neurites_consumed_with_extractions_in_between",
             "transform_instance_reused", "numpy_scalar_node_ids", "removals_as_iterator_or_set",
             "mappings_checked", "mapping_container_reused", "transform_reused_after_aborted_call",
             "zero_length_tip_branches_at_threshold_zero", "trees_derived_by_the_library_from_a_used_tree", "tip_exact_threshold_cases", "exhaustive_subsets",
@@ -414,7 +415,40 @@ def _op_neurites(ctx, case, spec, tree, dendrites):
     with warnings.catch_warnings():
         warnings.simplefilter("ignore")
         try:
-            outs = list(tree.get_dendrites(tc) if dendrites else tree.get_neurites(tc))
+            gen = tree.get_dendrites(tc) if dendrites else tree.get_neurites(tc)
+            if case.get("interleave"):
+                # the neurites are consumed one by one while the loop body extracts subtrees itself
+                # (of the neurite just yielded, of another tree) and a second generator over another
+                # tree is advanced in between
+                host = G.host_tree(len(kids) % 5, 9)
+                other = iter(host.get_neurites(True))
+                host_ch = topo.children_lists(np.array(host.pid()))
+                outs = []
+                ctx.count("neurites_consumed_with_extractions_in_between")
+                for o in gen:
+                    outs.append(o)
+                    same = o.node(0).subtree()
+                    if same.number_of_nodes() != o.number_of_nodes():
+                        return ctx.violation("wrong-survivors",
+                                             f"inside the loop over the neurites: subtree at the "
+                                             f"root of a {o.number_of_nodes()}-node neurite has "
+                                             f"{same.number_of_nodes()} nodes", case)
+                    v = 1 + len(outs) % (host.number_of_nodes() - 1)
+                    hs = host.node(v).subtree()
+                    if hs.number_of_nodes() != len(topo.descendants(host_ch, v)):
+                        return ctx.violation("wrong-survivors",
+                                             f"inside the loop over the neurites: subtree at node "
+                                             f"{v} of another tree has {hs.number_of_nodes()} nodes, "
+                                             f"it has {len(topo.descendants(host_ch, v))}", case)
+                    nxt = next(other, None)
+                    if nxt is not None and nxt.number_of_nodes() not in [
+                            len(topo.descendants(host_ch, c_)) for c_ in host_ch[0]]:
+                        return ctx.violation("wrong-survivors",
+                                             "two neurite generators (of two trees) advanced in "
+                                             "turns: the second tree's neurite has the wrong node "
+                                             "count", case)
+            else:
+                outs = list(gen)
         except ValueError:
             if tc and not soma:
                 ctx.count("type_check_raised")
@@ -553,8 +587,8 @@ def _workload(ctx):
                 go({"op": "cut_tip", "thre": float(t), "callback": bool(rng.random() < 0.5)})
         else:
             go({"op": "cut_tip", "thre": 5.0, "callback": True})
-        go({"op": "neurites"})
-        go({"op": "dendrites"})
+        go({"op": "neurites", "interleave": bool(k % 2)} if k % 2 else {"op": "neurites"})
+        go({"op": "dendrites", "interleave": True} if k % 3 == 0 else {"op": "dendrites"})
     # deep chain: no per-node recursion in extraction
     if ctx.shard == 0:
         n_deep = 20000 if ctx.quick else 100000
